@@ -181,15 +181,22 @@ def rule_orscope(ctx: Ctx) -> RuleResult:
     for r, t in early:
         tn = cfg.node_of(t)
         # the tested value must still contain the query: no reaching definition from a split on '?'
-        names = [x for x in ast.walk(t) if isinstance(x, ast.Name) and x.id == sid_p]
+        names = [x for x in ast.walk(t) if isinstance(x, ast.Name)]
         split_def = False
+        query_names = set()
+        for d in flow.all_defs:
+            if d.kind == "unpack" and isinstance(d.value, ast.Call) and isinstance(d.value.func, ast.Attribute) \
+                    and d.value.func.attr in ("split", "partition", "rsplit") and d.value.args and norm(d.value.args[0]) == "'?'" \
+                    and d.index is not None and d.index >= 1:
+                query_names.add(d.var)
         for nm in names:
             for d in flow.defs_reaching(tn.id, nm.id):
                 if d.kind == "unpack" and isinstance(d.value, ast.Call) and isinstance(d.value.func, ast.Attribute) \
-                        and d.value.func.attr in ("split", "partition") and d.value.args and norm(d.value.args[0]) == "'?'":
+                        and d.value.func.attr in ("split", "partition", "rsplit") and d.value.args and norm(d.value.args[0]) == "'?'" \
+                        and d.index == 0:
                     split_def = True
         tested = {x.id for x in ast.walk(t) if isinstance(x, ast.Name)}
-        also_query = "query" in tested
+        also_query = bool(tested & (query_names | {"query"}))
         if split_def and not also_query:
             res.violation([f.qualname, "early exit scope"], "or_op decides 'no or-sign' on the path part only: a ',' list in a query value is "
                                                             "not distributed when the path has none", f.relpath, r.lineno)
@@ -311,6 +318,51 @@ def _unfold_tainted(f: FunctionInfo) -> Set[str]:
     return tainted
 
 
+def _handmade_sources(f: FunctionInfo, arg: ast.AST) -> List[ast.AST]:
+    """assignments of non-empty list displays that (transitively) feed the names used in ``arg``"""
+    def names(e):
+        return {x.id for x in ast.walk(e) if isinstance(x, ast.Name)}
+
+    wanted = names(arg)
+    out: List[ast.AST] = []
+    changed = True
+    seen = set()
+    while changed:
+        changed = False
+        for n in own_nodes(f.node):
+            if isinstance(n, (ast.Assign, ast.AnnAssign)) and getattr(n, "value", None) is not None:
+                ts = n.targets if isinstance(n, ast.Assign) else [n.target]
+                tn = set()
+                for t in ts:
+                    base = t
+                    while isinstance(base, ast.Subscript):
+                        base = base.value
+                    tn |= names(base)
+                if tn & wanted:
+                    if isinstance(n.value, (ast.List, ast.Tuple)) and n.value.elts and id(n) not in seen:
+                        seen.add(id(n))
+                        out.append(n)
+                    new = names(n.value) - wanted
+                    if new:
+                        wanted |= new
+                        changed = True
+            elif isinstance(n, ast.For) and names(n.target) & wanted:
+                new = names(n.iter) - wanted
+                if new:
+                    wanted |= new
+                    changed = True
+            elif isinstance(n, ast.Call) and isinstance(n.func, ast.Attribute) and n.func.attr in ("append", "extend", "add") \
+                    and names(n.func.value) & wanted:
+                new = set()
+                for a in n.args:
+                    new |= names(a)
+                new -= wanted
+                if new:
+                    wanted |= new
+                    changed = True
+    return out
+
+
 def rule_unfoldall(ctx: Ctx) -> RuleResult:
     """whatever reaches do_find / do_get has been unfolded (aliases included)"""
     res = RuleResult("R-UNFOLDALL")
@@ -333,6 +385,15 @@ def rule_unfoldall(ctx: Ctx) -> RuleResult:
             deps = flow.depends(arg, at.id)
             from_unfold = any(a.kind == "call" and a.text.split(".")[-1] == "unfold_search" for a in deps) or (
                 {x.id for x in ast.walk(arg) if isinstance(x, ast.Name)} & _unfold_tainted(f))
+            # hand-made lists that flow into the argument next to (or instead of) the unfolded ones
+            handmade = _handmade_sources(f, arg)
+            bad_hand = [h for h in handmade if not any(lab == "true" and _alias_aware(ctx, f, t) for t, lab in ctx.ef._dominating_tests(cfg, h))]
+            if from_unfold and bad_hand:
+                res.violation([f.qualname, c.func.attr, "bypass"],
+                              f"{f.short}: `{norm(bad_hand[0])[:60]}` reaches {c.func.attr} without unfolding and without checking for an "
+                              f"extension alias: a concrete Sid ending in an alias is searched literally here while other finders expand it",
+                              f.relpath, bad_hand[0].lineno, site=site)
+                continue
             from_param = any(a.kind == "param" and a.text in ("search_sids", "searches") for a in deps) and f.name in ("do_find", "do_get")
             if from_unfold or from_param:
                 res.ok(site, "argument comes from unfold_search" if from_unfold else "delegation of an already unfolded list")
